@@ -242,14 +242,18 @@ func (idx *KVIndex) RemoveDoc(docID string) error {
 			return fmt.Errorf("failed to unmarshal document: %v", err)
 		}
 		for _, entryKey := range doc.Entries {
-			err = tx.Delete(entryKey)
-			if err != nil {
-				return fmt.Errorf("failed to delete entry %s: %v", entryKey, err)
+			if _, err := tx.Get(entryKey); err != nil {
+				//the entry is gone already: its field was removed after the document was added
+				continue
 			}
-
 			field, ttype, term, _ := EntryKeyParse(entryKey)
 			termKey := TermKey(field, ttype, term)
+			//get the count while the entry is still there: a recount has to include it
 			if count, err := idx.termGetCount(tx, field, ttype, term); err == nil {
+				err = tx.Delete(entryKey)
+				if err != nil {
+					return fmt.Errorf("failed to delete entry %s: %v", entryKey, err)
+				}
 				if count > 0 {
 					count = count - 1
 				}
